@@ -164,4 +164,81 @@ mod verif_c11 {
         std::mem::forget(parsed);
     }
     //@END
+    /// Width contract of the (loop-free) skip functions for EVERY value of the length prefix: an integer array of L items
+    /// occupies 1 + 4L bytes, a string of L UTF-16 units 1 + 2L (L < 128) or 2 + 2L bytes; the skip leaves exactly the rest.
+    /// (The small-buffer harnesses above tie this width to what the parsing twin consumes; they cannot reach long fields.)
+    fn width_buf(n: usize) -> (Vec<u8>, usize) {
+        let mut buf = vec![0u8; n];
+        buf[0] = kani::any();
+        buf[1] = kani::any();
+        let len: usize = kani::any();
+        kani::assume(len >= 1 && len <= n);
+        (buf, len)
+    }
+
+    //@H c11_skip_width_wid_array
+    #[kani::proof]
+    #[kani::unwind(4)]
+    fn c11_skip_width_wid_array() {
+        let (buf, len) = width_buf(1 + 4 * 255 + 3);
+        let items = buf[0] as usize;
+        kani::assume(len >= 1 + 4 * items); // complete record
+        let data = &buf[..len];
+        let r = skip_wid_array(data);
+        assert!(r.is_ok(), "a complete array is skipped");
+        if let Ok((rest, none)) = &r {
+            assert!(none.is_empty());
+            assert!(rest.len() == len - 1 - 4 * items && rest.as_ptr() == data[1 + 4 * items..].as_ptr(), "an id array of L items is skipped by exactly 1 + 4L bytes");
+        }
+        kani::cover!(items == 64 && len > 1 + 4 * 64, "64 items followed by data");
+        kani::cover!(items == 127, "the longest array the builder writes");
+        kani::cover!(items == 255, "the longest array the format can express");
+        std::mem::forget(r);
+        std::mem::forget(buf);
+    }
+    //@END
+
+    //@H c11_skip_width_u32_array
+    #[kani::proof]
+    #[kani::unwind(4)]
+    fn c11_skip_width_u32_array() {
+        let (buf, len) = width_buf(1 + 4 * 255 + 3);
+        let items = buf[0] as usize;
+        kani::assume(len >= 1 + 4 * items);
+        let data = &buf[..len];
+        let r = skip_u32_array(data);
+        assert!(r.is_ok(), "a complete array is skipped");
+        if let Ok((rest, none)) = &r {
+            assert!(none.is_empty());
+            assert!(rest.len() == len - 1 - 4 * items && rest.as_ptr() == data[1 + 4 * items..].as_ptr(), "a u32 array of L items is skipped by exactly 1 + 4L bytes");
+        }
+        kani::cover!(items == 64 && len > 1 + 4 * 64, "64 items followed by data");
+        kani::cover!(items == 255, "the longest array the format can express");
+        std::mem::forget(r);
+        std::mem::forget(buf);
+    }
+    //@END
+
+    //@H c11_skip_width_u16_string
+    #[kani::proof]
+    #[kani::unwind(4)]
+    fn c11_skip_width_u16_string() {
+        let (buf, len) = width_buf(2 + 2 * 32767 + 3);
+        let (prefix, units) = if buf[0] < 128 { (1usize, buf[0] as usize) } else { (2usize, (((buf[0] & 0x7f) as usize) << 8) | buf[1] as usize) };
+        kani::assume(len >= prefix + 2 * units);
+        let data = &buf[..len];
+        let r = skip_u16_string(data);
+        assert!(r.is_ok(), "a complete string is skipped");
+        if let Ok((rest, none)) = &r {
+            assert!(none.is_empty());
+            assert!(rest.len() == len - prefix - 2 * units && rest.as_ptr() == data[prefix + 2 * units..].as_ptr(), "a string of L units is skipped by its prefix + 2L bytes");
+        }
+        kani::cover!(prefix == 1 && units == 127, "longest 1-byte-prefix string");
+        kani::cover!(prefix == 2 && units == 127, "127 units behind a 2-byte prefix");
+        kani::cover!(prefix == 2 && units == 128 && len > 2 + 256, "128 units followed by data");
+        kani::cover!(prefix == 2 && units == 32767, "longest string the format can express");
+        std::mem::forget(r);
+        std::mem::forget(buf);
+    }
+    //@END
 }
